@@ -69,3 +69,118 @@ def r_to_mef(tmp, inp):
             if k != 'range' and repr(mo[k]) != repr(md[k]):
                 return True, 'metadata %s changed' % k
     return False, 'agrees'
+
+
+@replayer('FlowCal.transform.to_rfi')
+def r_to_rfi(tmp, inp):
+    import FlowCal
+    data = data_input(tmp, inp)
+    if inp.get('data') is None:
+        return False, 'witness too large'
+    X = np.asarray(data, dtype=float).copy()
+    N, D = X.shape
+    names = list(getattr(data, '_channels', []) or [])
+    fcs = hasattr(data, '_channels')
+    ch, form, ents = inp['channels'], inp['ov_form'], inp.get('entries')
+    kw = {}
+    scalar = not isinstance(ch, list) and ch is not None
+    n = 1 if scalar else (D if ch is None else len(ch))
+
+    def val(e, k):
+        v = e[k]
+        if v is None:
+            return None
+        if k == 'at':
+            return (fnum(v[0]), fnum(v[1]))
+        return fnum(v) if k == 'ag' else int(v)
+    if form != 'none':
+        es = (ents or [])[:max(n, 1)]
+        while len(es) < n:
+            es.append({'at': None, 'ag': None, 'r': None})
+        if scalar:
+            kw = {'amplification_type': val(es[0], 'at'), 'amplifier_gain': val(es[0], 'ag'), 'resolution': val(es[0], 'r')}
+        else:
+            kw = {'amplification_type': [val(e, 'at') for e in es], 'amplifier_gain': [val(e, 'ag') for e in es],
+                  'resolution': [val(e, 'r') for e in es]}
+            key = ('amplification_type', 'amplifier_gain', 'resolution')[inp.get('which') or 0]
+            if form == 'badlen':
+                kw[key] = kw[key] + [kw[key][0] if kw[key] else None]
+            if form == 'noniter':
+                kw[key] = 3.0
+    else:
+        es = [{'at': None, 'ag': None, 'r': None}] * n
+    before_range = repr(getattr(data, '_range', None))
+    res = call(FlowCal.transform.to_rfi, data, ch, **kw)
+    if form in ('badlen', 'noniter'):
+        ok = res[0] == 'raise' and isinstance(res[1], ValueError)
+        return (not ok), 'inconsistent argument lengths must raise ValueError; observed %s' % (res[0] if res[0] == 'return' else repr(res[1]))
+
+    def resolve(c):
+        if isinstance(c, str):
+            return names.index(c) if c in names else None
+        return c + D if -D <= c < 0 else (c if 0 <= c < D else None)
+    cols = list(range(D)) if ch is None else ([resolve(c) for c in ch] if isinstance(ch, list) else [resolve(ch)])
+    if any(c is None for c in cols):
+        return res[0] != 'raise', 'unknown name / bad position must raise; observed %s' % res[0]
+    if len(set(cols)) != len(cols):
+        return False, 'repeated channel: outside the precondition'
+    laws = []
+    for e, c in zip(es, cols):
+        at = val(e, 'at') if form != 'none' else None
+        if at is None:
+            at = data._amplification_type[c] if fcs else None
+        if at is None:
+            return res[0] != 'raise', 'no amplification type available: must raise'
+        if at[0] == 0:
+            g = val(e, 'ag') if form != 'none' else None
+            if g is None:
+                g = (data._amplifier_gain[c] if fcs else None)
+            if g is None:
+                g = 1.0
+            if g <= 0:
+                return False, 'non-positive gain: outside the quantifier'
+            laws.append(lambda x, g=g: x / g)
+        else:
+            r = val(e, 'r') if form != 'none' else None
+            if r is None:
+                r = data._resolution[c] if fcs else None
+            if r is None:
+                return res[0] != 'raise', 'no resolution available: must raise'
+            if r <= 0:
+                return False, 'non-positive resolution: outside the quantifier'
+            laws.append(lambda x, a0=at[0], a1=at[1], r=r: a1 * 10 ** (a0 * x / float(r)))
+    if res[0] == 'raise':
+        return True, 'refused a complete request: %r' % (res[1],)
+    out = res[1]
+    exp = X.copy()
+    for f, c in zip(laws, cols):
+        exp[:, c] = f(X[:, c])
+    O = np.asarray(out)
+    if O.shape != exp.shape or not np.allclose(O, exp, rtol=1e-9, atol=0, equal_nan=True):
+        bad = [c for c in range(D) if not np.allclose(O[:, c], exp[:, c], rtol=1e-9, atol=0, equal_nan=True)]
+        return True, 'columns %s do not follow their amplifier law (or unselected columns changed)' % bad
+    for c in range(D):
+        if c not in cols and not np.array_equal(O[:, c], X[:, c]):
+            return True, 'unselected column %d is not bit-identical' % c
+    if type(out) is not type(data):
+        return True, 'container kind changed'
+    if not np.array_equal(np.asarray(data, dtype=float), X):
+        return True, 'input events were modified'
+    if fcs:
+        if repr(data._range) != before_range:
+            return True, 'input range was modified'
+        for c in range(D):
+            r0 = data._range[c]
+            if c in cols and r0 is not None:
+                f = laws[cols.index(c)]
+                want = [f(r0[0]), f(r0[1])]
+                got = out._range[c]
+                if got is None or not np.allclose(got, want, rtol=1e-9, atol=0):
+                    return True, 'range of converted column %d is %r, expected %r' % (c, got, want)
+            elif repr(out._range[c]) != repr(r0):
+                return True, 'range of unconverted column %d changed: %r -> %r' % (c, r0, out._range[c])
+        mo, md = meta_of(out), meta_of(data)
+        for k in mo:
+            if k != 'range' and repr(mo[k]) != repr(md[k]):
+                return True, 'metadata %s changed' % k
+    return False, 'agrees'
